@@ -70,6 +70,10 @@ type Spec[C any] struct {
 	// is executed, so a case that kills or wedges the process is still known
 	// to the driver.
 	Journal bool
+	// JournalOf, when set, gives the value journalled for a case instead of the
+	// case itself (a case that has to be replayed together with earlier ones
+	// whose delayed effects are still pending).
+	JournalOf func(c C) any
 	// Sample renders a case for the evidence file (defaults to the case).
 	Sample func(c C) any
 }
@@ -309,7 +313,13 @@ func Eval[C any](s Spec[C], c C, record bool) *Violation {
 		panic("verif: case not serialisable: " + err.Error())
 	}
 	if s.Journal {
-		journal(b)
+		jb := b
+		if s.JournalOf != nil {
+			if x, err := json.Marshal(s.JournalOf(c)); err == nil {
+				jb = x
+			}
+		}
+		journal(jb)
 	}
 	if record {
 		cl := Class{NonTrivial: true}
